@@ -126,8 +126,25 @@ func c14Decl(fields []string, withEvent bool) *refmodel.Decl {
 		d.Block = append(d.Block, refmodel.BlockField{Name: f, Column: col})
 		d.Columns = append(d.Columns, refmodel.Column{Name: col, Type: gen.FieldColType[f]})
 	}
+	if c14DeclareIdentity {
+		// the identity columns are spelled out in the table, their block fields are left to shovel
+		for _, c := range []refmodel.Column{{Name: "block_num", Type: "numeric"}, {Name: "tx_idx", Type: "int"}, {Name: "log_idx", Type: "int"}, {Name: "ig_name", Type: "text"}, {Name: "src_name", Type: "text"}} {
+			has := c.Name == "log_idx" && !withEvent
+			for _, x := range d.Columns {
+				if x.Name == c.Name {
+					has = true
+				}
+			}
+			if !has {
+				d.Columns = append(d.Columns, c)
+			}
+		}
+	}
 	return d
 }
+
+// c14DeclareIdentity: identity columns are declared in table.columns without block entries.
+var c14DeclareIdentity bool
 
 // c14Rename: store every non-identity field under a column of another name.
 var c14Rename bool
@@ -136,18 +153,20 @@ var c14Identity = map[string]bool{"ig_name": true, "src_name": true, "block_num"
 
 // c14Run indexes the distinct chain with the declaration and compares.
 func c14Run(fields []string, withEvent bool) string {
-	defer func() { c14Rename, c14Struct = false, false }()
-	for _, variant := range []struct{ rename, structEv bool }{{false, false}, {true, false}, {false, true}} {
+	defer func() { c14Rename, c14Struct, c14DeclareIdentity = false, false, false }()
+	for _, variant := range []struct{ rename, structEv, ident bool }{{false, false, false}, {true, false, false}, {false, true, false}, {false, false, true}} {
 		if variant.structEv && !withEvent {
 			continue
 		}
-		c14Rename, c14Struct = variant.rename, variant.structEv
+		c14Rename, c14Struct, c14DeclareIdentity = variant.rename, variant.structEv, variant.ident
 		if v := c14RunOnce(fields, withEvent); v != "" {
 			switch {
 			case variant.rename:
 				return "(fields stored under columns named x_<field>) " + v
 			case variant.structEv:
 				return "(event whose selected inputs are all members of a struct) " + v
+			case variant.ident:
+				return "(identity columns declared in the table without block entries) " + v
 			}
 			return v
 		}
